@@ -247,9 +247,15 @@ impl Agg {
         self.stale_task_wakes += r.stale_task_wakes;
         *self.per_subject.entry(cfg.subject.name().to_string()).or_default() += 1;
         *self.per_workload.entry(format!("{:?}", wl)).or_default() += 1;
+        let mut seen_keys: Vec<(String, String, String)> = vec![];
         for v in &r.violations {
             if counts_for(prop, v, cfg.subject) {
                 let key = (v.property.clone(), v.oracle.clone(), cfg.subject.name().to_string());
+                // counted once per run
+                if seen_keys.contains(&key) {
+                    continue;
+                }
+                seen_keys.push(key.clone());
                 let e = self.found.entry(key).or_insert((0, seed, index, wl, sweep_k, v.detail.clone()));
                 e.0 += 1;
             } else {
